@@ -80,3 +80,45 @@ package keylock
 //@     invariant m != nil && (forall k int :: { has(m, k) } has(m, k) ==> 0 <= k && k < grpShards) && len(ms) >= 0 && isfresh(ms) && nalloc() >= old(nalloc())
 //@     invariant #visited forall a int :: { ms[a] } 0 <= a && a < len(ms) ==> visited(2, ms[a].index) && 0 <= ms[a].index && ms[a].index < grpShards
 //@     invariant #distinct forall a int, b int :: { ms[a], ms[b] } 0 <= a && a < b && b < len(ms) ==> ms[a].index != ms[b].index
+//
+// ---- multi-key registration: every listed key gets exactly one more registration, inside ONE critical section
+// (so two multi-key callers never see each other half registered), and ws[a] is the locker of keys[a]: Locks then
+// takes the per-key locks in list order ----
+//@ pure nodup(keys []T) bool = forall a int, b int :: { keys[a], keys[b] } 0 <= a && a < b && b < len(keys) ==> keys[a] != keys[b]
+//@ func TKeyLocker.getWriteLocks
+//@   requires d != nil && !held(d.locker) && nodup(keys)
+//@   ensures #shape len(result) == len(keys) && forall a int :: { result[a] } 0 <= a && a < len(result) ==> result[a] != nil
+//@   atunlock #all forall a int :: { keys[a] } 0 <= a && a < len(keys) ==> has(d.lockMap, keys[a]) && ws[a] == d.lockMap[keys[a]] && ws[a] != nil && wcnt(d, keys[a]) == old(wcnt(d, keys[a])) + 1 && rcnt(d, keys[a]) == old(rcnt(d, keys[a]))
+//@   modifies mapsof(d.lockMap), wrapLocker.readCount, wrapLocker.writeCount, region($alloc)
+//@   loop 1
+//@     invariant wheld(d.locker) && d.lockMap != nil && len(ws) == len(keys) && isfresh(ws) && nalloc() >= old(nalloc()) && 0 <= i && i <= len(keys)
+//@     invariant #entries forall k T :: { has(d.lockMap, k) } has(d.lockMap, k) ==> d.lockMap[k] != nil && allocated(d.lockMap[k]) && d.lockMap[k].readCount >= 0 && d.lockMap[k].writeCount >= 0 && d.lockMap[k].readCount + d.lockMap[k].writeCount > 0 && d.lockMap[k].writeCount < 4611686018427387904 + i
+//@     invariant #distinct forall k1 T, k2 T :: { has(d.lockMap, k1), has(d.lockMap, k2) } has(d.lockMap, k1) && has(d.lockMap, k2) && k1 != k2 ==> d.lockMap[k1] != d.lockMap[k2]
+//@     invariant #done forall a int :: { keys[a] } 0 <= a && a < i ==> has(d.lockMap, keys[a]) && ws[a] == d.lockMap[keys[a]] && ws[a] != nil && wcnt(d, keys[a]) == cs(wcnt(d, keys[a])) + 1 && rcnt(d, keys[a]) == cs(rcnt(d, keys[a]))
+//@     invariant #todo forall a int :: { keys[a] } i <= a && a < len(keys) ==> has(d.lockMap, keys[a]) == cs(has(d.lockMap, keys[a])) && wcnt(d, keys[a]) == cs(wcnt(d, keys[a])) && rcnt(d, keys[a]) == cs(rcnt(d, keys[a])) && (has(d.lockMap, keys[a]) ==> d.lockMap[keys[a]] == cs(d.lockMap[keys[a]]))
+//@ func TKeyLocker.getReadLocks
+//@   requires d != nil && !held(d.locker) && nodup(keys)
+//@   ensures #shape len(result) == len(keys) && forall a int :: { result[a] } 0 <= a && a < len(result) ==> result[a] != nil
+//@   atunlock #all forall a int :: { keys[a] } 0 <= a && a < len(keys) ==> has(d.lockMap, keys[a]) && ws[a] == d.lockMap[keys[a]] && ws[a] != nil && rcnt(d, keys[a]) == old(rcnt(d, keys[a])) + 1 && wcnt(d, keys[a]) == old(wcnt(d, keys[a]))
+//@   modifies mapsof(d.lockMap), wrapLocker.readCount, wrapLocker.writeCount, region($alloc)
+//@   loop 1
+//@     invariant wheld(d.locker) && d.lockMap != nil && len(ws) == len(keys) && isfresh(ws) && nalloc() >= old(nalloc()) && 0 <= i && i <= len(keys)
+//@     invariant #entries forall k T :: { has(d.lockMap, k) } has(d.lockMap, k) ==> d.lockMap[k] != nil && allocated(d.lockMap[k]) && d.lockMap[k].readCount >= 0 && d.lockMap[k].writeCount >= 0 && d.lockMap[k].readCount + d.lockMap[k].writeCount > 0 && d.lockMap[k].readCount < 4611686018427387904 + i
+//@     invariant #distinct forall k1 T, k2 T :: { has(d.lockMap, k1), has(d.lockMap, k2) } has(d.lockMap, k1) && has(d.lockMap, k2) && k1 != k2 ==> d.lockMap[k1] != d.lockMap[k2]
+//@     invariant #done forall a int :: { keys[a] } 0 <= a && a < i ==> has(d.lockMap, keys[a]) && ws[a] == d.lockMap[keys[a]] && ws[a] != nil && rcnt(d, keys[a]) == cs(rcnt(d, keys[a])) + 1 && wcnt(d, keys[a]) == cs(wcnt(d, keys[a]))
+//@     invariant #todo forall a int :: { keys[a] } i <= a && a < len(keys) ==> has(d.lockMap, keys[a]) == cs(has(d.lockMap, keys[a])) && wcnt(d, keys[a]) == cs(wcnt(d, keys[a])) && rcnt(d, keys[a]) == cs(rcnt(d, keys[a])) && (has(d.lockMap, keys[a]) ==> d.lockMap[keys[a]] == cs(d.lockMap[keys[a]]))
+//
+// Locks / RLocks: take the per-key locks in list order (ws[a] is the locker of keys[a]); blocking happens after the
+// table mutex is released
+//@ func TKeyLocker.Locks
+//@   requires d != nil && !held(d.locker) && nodup(keys)
+//@   opt keeps-lock
+//@   modifies mapsof(d.lockMap), wrapLocker.readCount, wrapLocker.writeCount, region($alloc), region($held)
+//@   loop 1
+//@     invariant !held(d.locker)
+//@ func TKeyLocker.RLocks
+//@   requires d != nil && !held(d.locker) && nodup(keys)
+//@   opt keeps-lock
+//@   modifies mapsof(d.lockMap), wrapLocker.readCount, wrapLocker.writeCount, region($alloc), region($held)
+//@   loop 1
+//@     invariant !held(d.locker)
